@@ -96,7 +96,7 @@ def correspondence(ctx):
     for plan in plans:
         _collect(r, _util.pmap(_corr_unit, _units(plan)), plan[0] + '_histories')
         ctx.log('correspondence %s: %d histories so far' % (plan[0], r.evaluations))
-    hs = A.random_histories(ctx.rng('corr-random'), ctx.pick(30000, 300000), 40)
+    hs = A.random_histories(ctx.rng('corr-random'), ctx.pick(30000, 150000), 40)
     _collect(r, _util.pmap(_corr_histories, _util.chunks(hs, 500)), 'random_histories')
     probe = A.twin_probe()
     if not probe['impl_equals_model']:
@@ -376,7 +376,7 @@ def oracle(ctx, seeds, scale):
     for plan in _plans(ctx):
         _collect(r, _util.pmap(_oracle_unit, _units(plan)), plan[0] + '_histories')
     rng = ctx.rng('oracle-random')
-    hs = [_oracle_random(rng, 40) for _ in range(ctx.pick(30000, 300000) * scale)]
+    hs = [_oracle_random(rng, 40) for _ in range(ctx.pick(30000, 150000) * scale)]
     _collect(r, _util.pmap(_oracle_histories, _util.chunks(hs, 500)), 'random_histories')
     r.sample({'history': 'a:%s;a:g@3:%s;a:g@7:%s;p:1;a:%s;t' % (A.S_A, A.S_A, A.S_A, A.S_BAD), 'verdict': 'holds'})
     r.rule = ('the .args (TexArgs) of a command vs a plain Python list that is handed the SAME group objects, after '
